@@ -29,6 +29,8 @@ type RunCtx struct {
 	Inconclusive int
 	NonTrivial  bool // scenario may force (e.g. fault enumeration cells)
 	Cells       []string // extra distinct-coverage cells (C04)
+	Cell        int    // index of the enumerated cell (scenarios with Cells > 0)
+	Label       string // human label of the case (fallback violation signature)
 }
 
 //go:norace
@@ -52,6 +54,9 @@ type Scenario struct {
 	RacePkgs []string
 	// RaceIgnoreFuncs: regexp of function names excluded (configuration calls the property does not cover).
 	RaceIgnore *regexp.Regexp
+	// Cells > 0: the scenario enumerates that many cells exhaustively (one run each)
+	// before seeded sampling of the other scenarios starts.
+	Cells int
 }
 
 var scenarios = map[string][]*Scenario{}
@@ -61,6 +66,7 @@ func register(s *Scenario) { scenarios[s.Prop] = append(scenarios[s.Prop], s) }
 // RunReport is everything the runner learns from one run.
 type RunReport struct {
 	Scenario   string             `json:"scenario"`
+	Cell       int                `json:"cell"`
 	Seed       uint64             `json:"seed"`
 	Viols      []*Violation       `json:"viols,omitempty"`
 	Tape       simrt.Tape         `json:"tape"`
@@ -94,12 +100,12 @@ func findScenario(prop, name string) *Scenario {
 }
 
 // runOne executes one run of scenario sc.
-func runOne(sc *Scenario, seed uint64, replay *simrt.Tape, trace bool) *RunReport {
-	rc := &RunCtx{}
+func runOne(sc *Scenario, seed uint64, replay *simrt.Tape, trace bool, cell int) *RunReport {
+	rc := &RunCtx{Cell: cell}
 	before := simrt.RaceErrors()
 	cfg := simrt.Config{Seed: seed, Replay: replay, MaxSteps: sc.MaxSteps, TraceOn: trace}
 	res := simrt.Run(cfg, func() { sc.Body(rc) })
-	rep := &RunReport{Scenario: sc.Name, Seed: seed, Tape: res.Tape, Steps: res.Steps, Switches: res.Switches,
+	rep := &RunReport{Scenario: sc.Name, Cell: cell, Seed: seed, Tape: res.Tape, Steps: res.Steps, Switches: res.Switches,
 		VirtualNs: res.VirtualNs, Policy: res.Policy, Faults: res.Faults, Probes: res.Probes, Trace: res.Trace}
 	if res.Fail != nil {
 		f := res.Fail
@@ -114,7 +120,7 @@ func runOne(sc *Scenario, seed uint64, replay *simrt.Tape, trace bool) *RunRepor
 		case "oracle-stop":
 			// harness stopped the run after recording its own violation
 		default:
-			rc.Violate(sc.Prop, f.Kind, f.Kind+":"+sigOfFailure(f), f.Msg)
+			rc.Violate(sc.Prop, f.Kind, f.Kind+":"+sigOfFailure(f, rc.Label), f.Msg)
 		}
 	}
 	if sc.After != nil && rep.Machinery == "" && res.Fail == nil {
@@ -143,14 +149,24 @@ var reFrame = regexp.MustCompile(`^  (\S.*)\(\)$`)
 var reHex = regexp.MustCompile(`\.func\d+(\.\d+)*$`)
 
 // sigOfFailure extracts a stable signature from a simulator failure message: the
-// first golib (non-simulator) frames of the stack if one is attached, else the text.
-func sigOfFailure(f *simrt.Failure) string {
+// innermost golib frame and the golib entry point of the attached stack, else the label,
+// else the text.
+func sigOfFailure(f *simrt.Failure, label string) string {
 	if i := strings.Index(f.Msg, "\n"); i >= 0 {
-		fr := golibFrames(f.Msg[i:], 1)
+		fr := golibFrames(f.Msg[i:], 100)
 		if len(fr) > 0 {
+			if fr[len(fr)-1] != fr[0] {
+				return fr[0] + " via " + fr[len(fr)-1]
+			}
 			return fr[0]
 		}
+		if label != "" {
+			return label
+		}
 		return f.Msg[:i]
+	}
+	if label != "" {
+		return label
 	}
 	return f.Msg
 }
@@ -293,8 +309,17 @@ func raceViolation(sc *Scenario, lines []string) (*Violation, bool) {
 		if !strings.HasPrefix(fn, "github.com/whatap/golib/") {
 			return nil, true // top user frame is harness code: artefact of the cooperative scheduler
 		}
-		fn = strings.TrimPrefix(fn, "github.com/whatap/golib/")
-		fn = reHex.ReplaceAllString(fn, "")
+		entry := fn
+		for _, fr := range st {
+			if strings.HasPrefix(fr, "github.com/whatap/golib/") && !strings.Contains(fr, "/zzverif/") {
+				entry = fr
+			}
+		}
+		norm := func(x string) string {
+			x = strings.TrimPrefix(x, "github.com/whatap/golib/")
+			return reHex.ReplaceAllString(x, "")
+		}
+		fn, entry = norm(fn), norm(entry)
 		ok := len(sc.RacePkgs) == 0
 		for _, p := range sc.RacePkgs {
 			if strings.HasPrefix(fn, p) {
@@ -304,8 +329,11 @@ func raceViolation(sc *Scenario, lines []string) (*Violation, bool) {
 		if !ok {
 			return nil, false
 		}
-		if sc.RaceIgnore != nil && sc.RaceIgnore.MatchString(fn) {
+		if sc.RaceIgnore != nil && (sc.RaceIgnore.MatchString(fn) || sc.RaceIgnore.MatchString(entry)) {
 			return nil, false
+		}
+		if entry != fn {
+			fn += " via " + entry
 		}
 		sigs = append(sigs, fn)
 	}
